@@ -491,6 +491,18 @@ def run_impl(case):
 
 
 # --------------------------------------------------------------------------------------------- judging
+def covers(run, ref):
+    """nothing of `ref` (effects of one tracepoint in the fault-free run) is missing in `run` (multiset inclusion per
+    kind; the faulted run may have MORE: e.g. a span that the victim's pending callback kept from closing)"""
+    from collections import Counter
+    for kind, items in (ref or {}).items():
+        have = Counter(core.canon(x) for x in (run or {}).get(kind, []))
+        need = Counter(core.canon(x) for x in items)
+        if need - have:
+            return False
+    return True
+
+
 def oracle(case, obs):
     v = []
     if obs['escaped']:
@@ -517,8 +529,8 @@ def oracle(case, obs):
         for tp in sorted(set(obs['ref_effects']) | set(obs['effects'])):
             if tp in victims or tp == 'probe':
                 continue
-            if obs['effects'].get(tp) != obs['ref_effects'].get(tp):
-                v.append(f'a failure while {what} {sorted(victims)} changed the effects of {tp}: '
+            if not covers(obs['effects'].get(tp), obs['ref_effects'].get(tp)):
+                v.append(f'a failure while {what} {sorted(victims)} cost effects of {tp}: '
                          f'{json.dumps(obs["effects"].get(tp))[:200]} vs {json.dumps(obs["ref_effects"].get(tp))[:200]}')
                 break
     for tp, n in ((case.get('expect_logs') or {}) if case['kind'] == 'scenario' else {}).items():
@@ -577,7 +589,7 @@ def nontrivial(case, obs):
 def shrink(case):
     tps = case['tps']
     for i in range(len(tps)):
-        if len(tps) > 1:
+        if len(tps) > 1 and tps[i]['id'] not in (case.get('expect_logs') or {}):
             c = dict(case)
             c['tps'] = tps[:i] + tps[i + 1:]
             if case['kind'] == 'fault':
